@@ -188,5 +188,59 @@ def _impl(tier, seed, search):
     res = L.result(); res['exhaustive'] = True
     return res
 
+SHORT = dict(SO2='SO2', SE2='SE2', SO3='SO3', SE3='SE3', Quaternion='Q', UnitQuaternion='UQ', Twist2='Tw2', Twist3='Tw3', Plucker='Pl',
+             SpatialVelocity='SVel', SpatialAcceleration='SAcc', SpatialForce='SFor', SpatialMomentum='SMom', SpatialInertia='SIne',
+             DualQuaternion='DQ', UnitDualQuaternion='UDQ')
+OPN = {'*': 'mul', '/': 'div', '+': 'add', '-': 'sub', '**': 'pow', '@': 'matmul'}
+
+def correspondence(tier, seed):
+    from .common import model_correspondence
+    return model_correspondence('smv.props.c08', tier, seed)
+
+def _corr(tier, seed):
+    """every ordered class pair x operator, single-valued operands: what the real classes do vs Logic.Dispatch.binopCls;
+    and the documented table used by the monitor vs Logic.Dispatch.documented"""
+    import operator
+    from spatialmath import SO2, SE2, SO3, SE3, Quaternion, UnitQuaternion, Twist2, Twist3
+    from spatialmath.geom3d import Plucker
+    from spatialmath.spatialvector import SpatialVelocity, SpatialAcceleration, SpatialForce, SpatialMomentum, SpatialInertia
+    from spatialmath.DualQuaternion import DualQuaternion, UnitDualQuaternion
+    g = inputs.rng(seed + 5)
+    def mk(c):
+        if c == 'SO2': return SO2(inputs.so2(g))
+        if c == 'SE2': return SE2(inputs.se2(g, 1))
+        if c == 'SO3': return SO3(inputs.so3(g))
+        if c == 'SE3': return SE3(inputs.se3(g, 1))
+        if c == 'Quaternion': return Quaternion(g.normal(size=4))
+        if c == 'UnitQuaternion': return UnitQuaternion(inputs.unitq(g))
+        if c == 'Twist2': return Twist2(g.normal(size=3))
+        if c == 'Twist3': return Twist3(g.normal(size=6))
+        if c == 'Plucker': return Plucker.PQ(g.normal(size=3), g.normal(size=3))
+        if c in SPAT: return dict(SpatialVelocity=SpatialVelocity, SpatialAcceleration=SpatialAcceleration, SpatialForce=SpatialForce, SpatialMomentum=SpatialMomentum)[c](g.normal(size=6))
+        if c == 'SpatialInertia': return SpatialInertia(2.0, g.normal(size=3), np.eye(3))
+        if c == 'DualQuaternion': return DualQuaternion(Quaternion(g.normal(size=4)), Quaternion(g.normal(size=4)))
+        if c == 'UnitDualQuaternion': return UnitDualQuaternion(SE3(inputs.se3(g, 1)))
+    OPS = {'*': operator.mul, '/': operator.truediv, '+': operator.add, '-': operator.sub, '**': operator.pow, '@': operator.matmul}
+    rows = []
+    for l in ALL:
+        for r in ALL:
+            for op, f in OPS.items():
+                try:
+                    x = f(mk(l), mk(r))
+                    if x is None: got = 'none'
+                    elif isinstance(x, np.ndarray): got = 'arr'
+                    elif isinstance(x, (int, float, np.floating, np.integer)) and not isinstance(x, (bool, np.bool_)): got = 'scalar'
+                    else: got = SHORT.get(type(x).__name__, 'other:' + type(x).__name__)
+                except Exception:
+                    got = 'raises'
+                rows.append(dict(req=f'logic disp {SHORT[l]} {OPN[op]} {SHORT[r]}', exp=got, meta=dict(left=l, right=r, op=op)))
+                d = documented(l, r, op)
+                if d is None: want = 'unspecified'
+                elif d == 'raise': want = 'raises'
+                elif d[0] == 'cls': want = SHORT[d[1]]
+                else: want = dict(ndarray='arr', scalar='scalar')[d[1]]
+                rows.append(dict(req=f'logic doc {SHORT[l]} {OPN[op]} {SHORT[r]}', exp=want, meta=dict(left=l, right=r, op=op, table='documented')))
+    return rows
+
 if __name__ == '__main__':
-    main_entry(_impl)
+    main_entry(_impl, _corr)
